@@ -30,6 +30,14 @@ A_MODEL = "the harness's reference models/oracles are themselves correct (they a
 A_REACH = "only code paths the generated workloads reach are judged; evidence counts what was observed"
 
 PROPS = {}
+EXTRA_STAGES = {}
+
+
+def add_stage(pid, stage, assumptions=()):
+    """Append a stage to a property that another fragment registers (e.g. the simulator half of a
+    property whose production half lives in another crate). Merged by vlib/props.py after all
+    fragments are loaded."""
+    EXTRA_STAGES.setdefault(pid, []).append((stage, list(assumptions)))
 
 
 def reg(pid, stages, level="exploration", assumptions=(), technique="", text="", note="", ref="", engine=""):
